@@ -213,6 +213,13 @@ pub mod lang;
 mod tokenizer;
 pub mod word_to_digit;
 
+/// Verification hook (cargo feature `verif`, off by default): gives an external
+/// harness access to exactly the tokens `replace_numbers_in_text` works on.
+#[cfg(feature = "verif")]
+pub mod verif {
+    pub use crate::tokenizer::{tokenize, BasicToken};
+}
+
 pub use lang::{BasicAnnotate, LangInterpreter, Language};
 pub use word_to_digit::{
     find_numbers, find_numbers_iter, replace_numbers_in_stream, replace_numbers_in_text,
